@@ -190,6 +190,9 @@ func (s *Solver) Assert(t *term.Term) {
 	s.send(fmt.Sprintf("(assert %s)", t.Ref()))
 }
 
+// Define makes t known to the solver (so that its value can be read from a later model).
+func (s *Solver) Define(t *term.Term) { s.define(t) }
+
 // MarkUF records that an uninterpreted function symbol was declared through Raw.
 func (s *Solver) MarkUF(name string) { s.ufs[name] = true }
 
